@@ -77,6 +77,10 @@ def extra(mon, tier, seed):
                               {"engine": "wsm", "args": ["key", p.f["B"]]})
         # client's own A under tiny announced groups
         primes = [2, 3, 5, 7, 11, 13, 17, 251, 257, 65537]
+        # moduli that are not prime are legal announcements too ("whatever modulus the server announced"): A is refused
+        # exactly when A mod N' == 0
+        low_cleared = M.le(bytes(8) + M.N_LE[8:])
+        primes += [4, 6, 9, 15, 256, 65536, 3 * 2 ** 64, 2 ** 128, 3 * 2 ** 200, low_cleared, M.N - 1, 255 * 2 ** 16, 10 ** 12]
         for p_ in primes:
             for g in sorted(set([2, 3, 5, 7, 14, 21, 22, 26, 33, 34, 35, 39, 51, 55, 65, 77, 85, 91, 119, 143, 187, 221, 251, 255]
                                 + [p_ * k for k in range(1, 256 // p_ + 1) if p_ * k < 256 and p_ * k >= 2][:6])):
@@ -92,12 +96,12 @@ def extra(mon, tier, seed):
                 mon.ev()
                 replay = {"engine": "wsx", "kind": "raw", "commands": ["rng_script\tchunks=" + M.to_le(a).hex(), r.cmd]}
                 A = pow(g, a, p_)
-                if g % p_ == 0:
+                if A % p_ == 0:
                     if r.status == "panic":
                         mon.count("own_A_congruent_zero_refused")
                         msg = r.f.get("msg", "")
                         # A is the integer 0 here: if the panic names an error kind it must be the "is zero" kind
-                        if "PublicKeyModLargeSafePrimeIsZero" in msg and "PublicKeyIsZero" not in msg:
+                        if A == 0 and "PublicKeyModLargeSafePrimeIsZero" in msg and "PublicKeyIsZero" not in msg:
                             mon.violation("c04:own_A_zero_reported_with_wrong_kind",
                                           "client key A = 0 (g=%d, N'=%d) is refused but reported as 'mod large safe prime is zero' instead of 'is zero': %s" % (g, p_, msg[:160]), replay)
                         elif "PublicKeyIsZero" in msg:
